@@ -5,9 +5,19 @@
    predicts -- and no checked load or store leaves its block, no signed operation overflows, no fuel
    runs out, the untranslated rset_find is not reached (rs->rs == NULL). *)
 From Coq Require Import List ZArith NArith Bool Lia.
-From NV Require Import Bytes GenConsts RstrDefs CLite CLiteProps GenCFuncs TrUc.
+From NV Require Import Bytes GenConsts RstrDefs RstrProps CLite CLiteProps GenCFuncs CLiteTac.
 Import ListNotations.
 Local Open Scope Z_scope.
+
+(* two byte facts (also in TrUc.v, which this file does not import: rstr.c calls nothing of uc.c) *)
+Lemma cc_z0i : forall c, (c < 256)%N -> (wrap I32 (wrap I8 (Z.of_N c)) =? 0) = (c =? 0)%N.
+Proof. byte_fact. Qed.
+Lemma nonul_nthb_nz s p : nonul s -> (p < length s)%nat -> (nthb s p =? 0)%N = false.
+Proof.
+  intros H Hp. unfold nonul in H. rewrite Forall_forall in H.
+  assert (byte_ok (nthb s p)) as [Hb _] by (apply H; unfold nthb; apply nth_In; exact Hp).
+  apply N.eqb_neq. lia.
+Qed.
 
 (* ------------------------------------------------------------------ isword *)
 Theorem tr_rstr_isword m b s o d fuel : str_at m b s -> bytes_lt256 s -> (o <= length s)%nat ->
@@ -104,4 +114,369 @@ Proof.
   intros HS HR HnS HnR Hp Hq Hf. enter F_match_case cf_match_case.
   destruct (mc_tail_ok (callf cprog fuel d) m sb S bs R ic fuel HS HR HnS HnR (length R) p q fuel) as [v [st' [E1 [E2 E3]]]]; try lia.
   unfold mc_loop, mc_ret in E1; cbn [fn_body cf_match_case] in E1. rewrite exec_seq, E1, E2. exists v. split; [reflexivity|exact E3].
+Qed.
+
+(* ------------------------------------------------------------------ helpers for rstr_find *)
+Lemma wrap_I32_id z : int_ok z -> wrap I32 z = z.
+Proof. apply wrap_int_ok. Qed.
+Lemma wrap_I64_id z : int_ok z -> wrap I64 z = z.
+Proof.
+  intro H. unfold int_ok in H. unfold wrap. cbn [ity_bits ity_signed andb].
+  change (2 ^ 64) with 18446744073709551616. change (2 ^ (64 - 1)) with 9223372036854775808.
+  destruct (Z.leb_spec 9223372036854775808 (z mod 18446744073709551616)) as [L|L].
+  - assert (z < 0) by (destruct (Z.lt_ge_cases z 0); [assumption|rewrite Z.mod_small in L by lia; lia]).
+    rewrite <- (Z.mod_add z 1 18446744073709551616) by lia. rewrite Z.mod_small by lia. lia.
+  - assert (0 <= z) by (destruct (Z.lt_ge_cases z 0); [|assumption]; exfalso;
+      rewrite <- (Z.mod_add z 1 18446744073709551616) in L by lia; rewrite Z.mod_small in L by lia; lia).
+    apply Z.mod_small. lia.
+Qed.
+Lemma chk_I64 z : int_ok z -> chk I64 z = Ok z.
+Proof.
+  intro H. unfold int_ok in H. unfold chk, in_range, ity_min, ity_max, ity_signed, ity_bits.
+  change (- 2 ^ (64 - 1)) with (-9223372036854775808). change (2 ^ (64 - 1) - 1) with 9223372036854775807.
+  destruct (Z.leb_spec (-9223372036854775808) z); [|lia]. destruct (Z.leb_spec z 9223372036854775807); [|lia]. reflexivity.
+Qed.
+
+(* strlen on a C string in memory *)
+Lemma scan0_cstr (s : bytes) : nonul s -> forall o n, (o <= length s)%nat ->
+  scan0 (skipn o (cstr_block (zb s))) n = Ok (n + (length s - o))%nat.
+Proof.
+  intros Hn o. remember (length s - o)%nat as k eqn:Ek. revert o Ek.
+  induction k as [|k IH]; intros o Ek n Ho.
+  - assert (o = length s) as -> by lia. unfold cstr_block, zb.
+    rewrite skipn_app, skipn_all2 by (rewrite !map_length; lia). rewrite !map_length, Nat.sub_diag. cbn. f_equal. lia.
+  - assert (Hlt : (o < length s)%nat) by lia.
+    assert (E : skipn o (cstr_block (zb s)) = VInt (Z.of_N (nthb s o)) :: skipn (Datatypes.S o) (cstr_block (zb s))).
+    { unfold cstr_block, zb. rewrite !skipn_app, !map_length. replace (o - length s)%nat with 0%nat by lia.
+      replace (Datatypes.S o - length s)%nat with 0%nat by lia. rewrite !skipn_map, (skipn_cons_nthb s o Hlt). reflexivity. }
+    rewrite E. pose proof (nonul_nthb_nz s o Hn Hlt) as Hz. apply N.eqb_neq in Hz.
+    cbn [scan0]. destruct (Z.of_N (nthb s o)) eqn:Ec; [lia| |]; rewrite (IH (Datatypes.S o)) by lia; f_equal; lia.
+Qed.
+Lemma bi_strlen m b s o : str_at m b s -> nonul s -> (o <= length s)%nat ->
+  do_builtin_m BStrlen [VPtr b (Z.of_nat o)] m = Ok (VInt (Z.of_nat (length s - o)), m).
+Proof.
+  intros Hs Hn Ho. cbn [do_builtin_m do_builtin]. unfold blk_from. rewrite Hs.
+  assert (length (cstr_block (zb s)) = Datatypes.S (length s)) as -> by (unfold cstr_block, zb; rewrite app_length, !map_length; cbn; lia).
+  destruct (Z.ltb_spec (Z.of_nat o) 0); [lia|]. destruct (Z.ltb_spec (Z.of_nat (Datatypes.S (length s))) (Z.of_nat o)); [lia|].
+  cbn [orb bind]. rewrite Nat2Z.id, (scan0_cstr s Hn o 0 Ho). reflexivity.
+Qed.
+
+(* the memory after rewriting a block *)
+Lemma upd_app_hd {A} (pre : list A) x rest y : upd (pre ++ x :: rest) (length pre) y = pre ++ y :: rest.
+Proof.
+  unfold upd. rewrite firstn_app_exact. f_equal. f_equal.
+  replace (Datatypes.S (length pre)) with (length (pre ++ [x])) by (rewrite app_length; cbn; lia).
+  replace (pre ++ x :: rest) with ((pre ++ [x]) ++ rest) by (rewrite <- app_assoc; reflexivity).
+  apply skipn_app_exact.
+Qed.
+
+(* ------------------------------------------------------------------ rstr_find: the pieces of the C text *)
+Definition find_for : stmt :=
+  match fn_body cf_rstr_find with
+  | SSeq _ (SSeq _ (SSeq _ (SSeq _ (SSeq _ (SSeq _ (SSeq _ (SSeq _ (SSeq (SSeq _ w) _)))))))) => w | _ => SSkip end.
+Definition find_ret : stmt :=
+  match fn_body cf_rstr_find with
+  | SSeq _ (SSeq _ (SSeq _ (SSeq _ (SSeq _ (SSeq _ (SSeq _ (SSeq _ (SSeq _ r)))))))) => r | _ => SSkip end.
+Definition find_c1 : stmt := match find_for with SFor _ _ (SSeq c _) => c | _ => SSkip end.
+Definition find_c2 : stmt := match find_for with SFor _ _ (SSeq _ (SSeq c _)) => c | _ => SSkip end.
+Definition find_c3 : stmt := match find_for with SFor _ _ (SSeq _ (SSeq _ c)) => c | _ => SSkip end.
+Definition grp_for : stmt :=
+  match find_c3 with SIf _ (SSeq _ (SSeq (SSeq _ w) _)) _ => w | _ => SSkip end.
+
+Lemma upd_0 {A} (x : A) l v : upd (x :: l) 0 v = v :: l.
+Proof. reflexivity. Qed.
+Lemma upd_1 {A} (x y : A) l v : upd (x :: y :: l) 1 v = x :: v :: l.
+Proof. reflexivity. Qed.
+(* grps[] as cells *)
+Definition grp_block (g : list (Z * Z)) : block := flat_map (fun ab => [VInt (fst ab); VInt (snd ab)]) g.
+Lemma grp_block_app a b : grp_block (a ++ b) = grp_block a ++ grp_block b.
+Proof. apply flat_map_app. Qed.
+Lemma grp_block_length g : length (grp_block g) = (2 * length g)%nat.
+Proof. induction g as [|x g IH]; [reflexivity|]. unfold grp_block in *. cbn [flat_map app length]. rewrite IH. cbn [length]. lia. Qed.
+
+(* for (i = 1; i < n; i++) { grps[i * 2] = -1; grps[i * 2 + 1] = -1; } *)
+Lemma grp_for_ok call gb n a0 a1 a4 a5 a6 a7 a8 : 2 * n <= 2147483647 ->
+  forall k i pre rest mm fuel, 1 <= i -> k = Z.to_nat (n - i) -> Z.of_nat (length pre) = 2 * i -> length rest = (2 * k)%nat ->
+  nth_error mm gb = Some (pre ++ rest) -> (k < fuel)%nat ->
+  exec call fuel grp_for (mkst [a0; a1; VInt n; VPtr gb 0; a4; a5; a6; a7; a8; VInt i] mm)
+  = ONormal (mkst [a0; a1; VInt n; VPtr gb 0; a4; a5; a6; a7; a8; VInt (i + Z.of_nat k)]
+                  (upd mm gb (pre ++ grp_block (repeat (-1, -1) k)))).
+Proof.
+  intros Hn. induction k as [|k IH]; intros i pre rest mm fuel Hi Hk Hpre Hrest Hm Hf; (destruct fuel as [|fuel]; [lia|]);
+    unfold grp_for, find_c3, find_for; cbn [fn_body cf_rstr_find]; rewrite exec_for; xstep.
+  - destruct (Z.ltb_spec i n); [lia|]. xstep. destruct rest; [|discriminate]. cbn [repeat grp_block flat_map].
+    rewrite Z.add_0_r, upd_self by exact Hm. reflexivity.
+  - destruct (Z.ltb_spec i n); [|lia]. xstep.
+    destruct rest as [|x [|y rest]]; try (cbn in Hrest; lia).
+    assert (Hgb : (gb < length mm)%nat) by (apply nth_error_Some; congruence).
+    rewrite (chk_I32 (i * 2)) by lia. xstep. rewrite (chk_I32 (- (1))) by lia. xstep.
+    change (wrap I32 (- (1))) with (-1).
+    rewrite (store_ok mm gb (pre ++ x :: y :: rest)) by (try assumption; rewrite app_length; cbn [length]; lia).
+    replace (Z.to_nat (0 + 1 * (i * 2))) with (length pre) by lia. rewrite upd_app_hd. xstep.
+    rewrite (chk_I32 (i * 2)) by lia. xstep. rewrite (chk_I32 (i * 2 + 1)) by lia. xstep.
+    rewrite (chk_I32 (- (1))) by lia. xstep. change (wrap I32 (- (1))) with (-1).
+    rewrite (store_ok _ gb (pre ++ VInt (-1) :: y :: rest))
+      by (try (apply mem_upd_same; exact Hgb); rewrite app_length; cbn [length]; lia).
+    replace (Z.to_nat (0 + 1 * (i * 2 + 1))) with (length (pre ++ [VInt (-1)])) by (rewrite app_length; cbn [length]; lia).
+    replace (pre ++ VInt (-1) :: y :: rest) with ((pre ++ [VInt (-1)]) ++ y :: rest) by (rewrite <- app_assoc; reflexivity).
+    rewrite upd_app_hd, upd_upd by exact Hgb. xstep. rewrite (chk_I32 (i + 1)) by lia. xstep.
+    change (SFor _ _ _) with grp_for.
+    rewrite (IH (i + 1) ((pre ++ [VInt (-1)]) ++ [VInt (-1)]) rest); try lia.
+    + rewrite upd_upd by exact Hgb. cbn [repeat grp_block flat_map fst snd]. rewrite <- !app_assoc. cbn [app].
+      fold grp_block. replace (i + 1 + Z.of_nat k) with (i + Z.of_nat (S k)) by lia. reflexivity.
+    + rewrite !app_length. cbn [length]. lia.
+    + cbn in Hrest. lia.
+    + rewrite mem_upd_same by exact Hgb. rewrite <- !app_assoc. reflexivity.
+Qed.
+
+Definition nz (z : Z) : bool := negb (z =? 0).
+(* struct rstr { struct rset *rs; char *str; int icase; int lbeg, lend; int wbeg, wend; } with rs == NULL *)
+Definition rstr_block (bs : nat) (ic lb le wb we : Z) : block :=
+  [VInt 0; VPtr bs 0; VInt ic; VInt lb; VInt le; VInt wb; VInt we].
+Definition rs_of (lit : bytes) (ic lb le wb we : Z) : rstr := mk_rstr lit (nz ic) (nz lb) (nz le) (nz wb) (nz we).
+
+Section Find.
+  Variables (F d : nat) (m : mem) (rb bs sb gb : nat) (lit L : bytes) (o : nat) (ic lb le wb we n flg : Z).
+  Hypothesis Hrb : nth_error m rb = Some (rstr_block bs ic lb le wb we).
+  Hypothesis HS : str_at m sb L.
+  Hypothesis HR : str_at m bs lit.
+  Hypothesis HnL : nonul L.
+  Hypothesis Hnlit : nonul lit.
+  Hypothesis Hic : int_ok ic.
+  Hypothesis Hlb : int_ok lb.
+  Hypothesis Hle : int_ok le.
+  Hypothesis Hwb : int_ok wb.
+  Hypothesis Hwe : int_ok we.
+  Hypothesis Ho : (o <= length L)%nat.
+  Hypothesis HFlit : (length lit < F)%nat.
+
+  Definition lst (bo eo : Z) (r : nat) (iv : val) : list val :=
+    [VPtr rb 0; VPtr sb (Z.of_nat o); VInt n; VPtr gb 0; VInt flg; VInt (Z.of_nat (length lit));
+     VPtr sb bo; VPtr sb eo; VPtr sb (Z.of_nat (o + r)); iv].
+
+  Lemma load_rb0 : load m rb 0 = Ok (VInt 0). Proof. unfold load. rewrite Hrb. reflexivity. Qed.
+  Lemma load_rb1 : load m rb 1 = Ok (VPtr bs 0). Proof. unfold load. rewrite Hrb. reflexivity. Qed.
+  Lemma load_rb2 : load m rb 2 = Ok (VInt ic). Proof. unfold load. rewrite Hrb. reflexivity. Qed.
+  Lemma load_rb3 : load m rb 3 = Ok (VInt lb). Proof. unfold load. rewrite Hrb. reflexivity. Qed.
+  Lemma load_rb4 : load m rb 4 = Ok (VInt le). Proof. unfold load. rewrite Hrb. reflexivity. Qed.
+  Lemma load_rb5 : load m rb 5 = Ok (VInt wb). Proof. unfold load. rewrite Hrb. reflexivity. Qed.
+  Lemma load_rb6 : load m rb 6 = Ok (VInt we). Proof. unfold load. rewrite Hrb. reflexivity. Qed.
+
+  Let L256 : bytes_lt256 L := nonul_lt256 L HnL.
+
+  Lemma rd_s k : (o + k <= length L)%nat -> rd (skipn o L) (Z.of_nat k) = Some (nthb L (o + k)).
+  Proof. intro H. rewrite RstrProps.rd_in by (rewrite skipn_length; lia). fold (nthb (skipn o L) k). rewrite nthb_skipn. reflexivity. Qed.
+
+  (* rs->wbeg && ((r > s && isword(r - 1)) || !isword(r)) *)
+  Lemma c1_ok fuel bo eo r iv : (o + r <= length L)%nat ->
+    exists b, (if nz wb then wbeg_skip (skipn o L) (Z.of_nat r) else Some false) = Some b /\
+      exec (callf cprog F (S d)) fuel find_c1 (mkst (lst bo eo r iv) m)
+      = if b then OContinue (mkst (lst bo eo r iv) m) else ONormal (mkst (lst bo eo r iv) m).
+  Proof.
+    intro Hr. unfold find_c1, find_for, lst. cbn [fn_body cf_rstr_find]. xstep.
+    change (0 + 1 * 5) with 5. rewrite load_rb5. xstep. rewrite (wrap_I32_id wb Hwb). fold (nz wb).
+    destruct (nz wb); xstep; [|exists false; split; reflexivity].
+    cbn [ptr_cmp]. rewrite Nat.eqb_refl. xstep. unfold wbeg_skip. rewrite (rd_s r Hr).
+    destruct (Z.ltb_spec (Z.of_nat o) (Z.of_nat (o + r))) as [Hlt|Hge]; cbn [b2z]; xstep.
+    - destruct (Z.ltb_spec 0 (Z.of_nat r)); [|lia].
+      replace (Z.of_nat r - 1) with (Z.of_nat (r - 1)) by lia. rewrite (rd_s (r - 1)) by lia.
+      replace (Z.of_nat (o + r) + -1 * 1) with (Z.of_nat (o + (r - 1))) by lia.
+      rewrite (tr_rstr_isword m sb L (o + (r - 1)) d F HS L256) by lia. xstep.
+      destruct (isword (nthb L (o + (r - 1)))); cbn [b2z]; xstep; [exists true; split; reflexivity|].
+      rewrite (tr_rstr_isword m sb L (o + r) d F HS L256) by lia. xstep.
+      exists (negb (isword (nthb L (o + r)))). split; [reflexivity|]. destruct (isword (nthb L (o + r))); reflexivity.
+    - destruct (Z.ltb_spec 0 (Z.of_nat r)); [lia|].
+      rewrite (tr_rstr_isword m sb L (o + r) d F HS L256) by lia. xstep.
+      exists (negb (isword (nthb L (o + r)))). split; [reflexivity|]. destruct (isword (nthb L (o + r))); reflexivity.
+  Qed.
+
+  (* rs->wend && r[len] && (r + len == s || !isword(r + len - 1) || isword(r + len)) *)
+  Lemma c2_ok fuel bo eo r iv : (o + r + length lit <= length L)%nat ->
+    exists b, (if nz we then wend_skip (skipn o L) (Z.of_nat r) (Z.of_nat (length lit)) else Some false) = Some b /\
+      exec (callf cprog F (S d)) fuel find_c2 (mkst (lst bo eo r iv) m)
+      = if b then OContinue (mkst (lst bo eo r iv) m) else ONormal (mkst (lst bo eo r iv) m).
+  Proof.
+    intro Hr. unfold find_c2, find_for, lst. cbn [fn_body cf_rstr_find]. xstep.
+    change (0 + 1 * 6) with 6. rewrite load_rb6. xstep. rewrite (wrap_I32_id we Hwe). fold (nz we).
+    destruct (nz we); xstep; [|exists false; split; reflexivity].
+    set (j := (r + length lit)%nat).
+    assert (Hj : Z.of_nat (o + r) + 1 * Z.of_nat (length lit) = Z.of_nat (o + j)) by lia.
+    rewrite ?Hj. xload HS L256 (o + j)%nat. rewrite (cc_z0i _ (nthb_lt256 L (o + j) L256)).
+    unfold wend_skip. replace (Z.of_nat r + Z.of_nat (length lit)) with (Z.of_nat j) by lia.
+    rewrite (rd_s j) by lia.
+    destruct (nthb L (o + j) =? 0)%N; cbn [negb b2z]; xstep; [exists false; split; reflexivity|].
+    cbn [ptr_cmp]. rewrite Nat.eqb_refl. xstep. rewrite ?Hj.
+    destruct (Z.eqb_spec (Z.of_nat (o + j)) (Z.of_nat o)) as [E0|E0]; xstep.
+    { destruct (Z.eqb_spec (Z.of_nat j) 0); [|lia]. exists true; split; reflexivity. }
+    destruct (Z.eqb_spec (Z.of_nat j) 0); [lia|].
+    replace (Z.of_nat j - 1) with (Z.of_nat (j - 1)) by lia. rewrite (rd_s (j - 1)) by lia.
+    replace (Z.of_nat (o + j) + -1 * 1) with (Z.of_nat (o + (j - 1))) by lia.
+    rewrite (tr_rstr_isword m sb L (o + (j - 1)) d F HS L256) by lia. xstep.
+    destruct (isword (nthb L (o + (j - 1)))); cbn [negb b2z]; xstep; [|exists true; split; reflexivity].
+    rewrite ?Hj. rewrite (tr_rstr_isword m sb L (o + j) d F HS L256) by lia. xstep.
+    exists (isword (nthb L (o + j))). split; [reflexivity|]. destruct (isword (nthb L (o + j))); reflexivity.
+  Qed.
+
+  Variable gold : block.
+  Hypothesis Hgold : nth_error m gb = Some gold.
+  Hypothesis Hgl : length gold = (2 * Z.to_nat n)%nat.
+  Hypothesis Hn2 : 2 * n <= 2147483647.
+  Hypothesis HLmax : Z.of_nat (length L) <= 2147483647.
+  Hypothesis HFL : (length L < F)%nat.
+
+  (* if (!match_case(r, rs->str, rs->icase)) { grps[..] = ..; return 0; } *)
+  Lemma c3_ok fuel bo eo r iv : (o + r + length lit <= length L)%nat -> (Z.to_nat n < fuel)%nat ->
+    exists st',
+      exec (callf cprog F (S d)) fuel find_c3 (mkst (lst bo eo r iv) m)
+      = (if match_case (skipn r (skipn o L)) lit (nz ic) then OReturn (VInt 0) st' else ONormal (mkst (lst bo eo r iv) m)) /\
+      memm st' = upd m gb (grp_block (rstr_groups (Z.to_nat n) (Z.of_nat r) (Z.of_nat r + Z.of_nat (length lit)))).
+  Proof.
+    intros Hr Hf. unfold find_c3, find_for, lst. cbn [fn_body cf_rstr_find]. xstep.
+    change (0 + 1 * 1) with 1. rewrite load_rb1. xstep. change (0 + 1 * 2) with 2. rewrite load_rb2. xstep.
+    rewrite (wrap_I32_id ic Hic).
+    destruct (tr_match_case m sb L bs lit (o + r) 0 ic d F HS HR HnL Hnlit ltac:(lia) ltac:(lia) HFlit) as [v [E1 E2]].
+    change (Z.of_nat 0) with 0 in E1. rewrite E1. xstep. rewrite skipn_skipn. unfold nz.
+    cbn [skipn] in E2. rewrite <- E2.
+    destruct (v =? 0); cbn [negb b2z]; xstep;
+      [|exists (mkst [] (upd m gb (grp_block (rstr_groups (Z.to_nat n) (Z.of_nat r) (Z.of_nat r + Z.of_nat (length lit)))))); split; reflexivity].
+    assert (Hgb : (gb < length m)%nat) by (apply nth_error_Some; congruence).
+    destruct (Z.leb_spec 1 n) as [Hn1|Hn1].
+    - destruct gold as [|x [|y rest]] eqn:Eg; try (cbn [length] in Hgl; lia).
+      rewrite Nat.eqb_refl. xstep.
+      replace ((Z.of_nat (o + r) - Z.of_nat o) ÷ 1) with (Z.of_nat r) by (rewrite Z.quot_1_r; lia).
+      rewrite !(wrap_I32_id (Z.of_nat r)) by (unfold int_ok; lia).
+      change (0 + 1 * 0) with 0. rewrite (store_ok m gb (x :: y :: rest)) by (try assumption; cbn [length]; lia).
+      change (Z.to_nat 0) with 0%nat. rewrite upd_0. xstep.
+      rewrite Nat.eqb_refl. xstep.
+      replace ((Z.of_nat (o + r) - Z.of_nat o) ÷ 1) with (Z.of_nat r) by (rewrite Z.quot_1_r; lia).
+      rewrite (wrap_I64_id (Z.of_nat (length lit))) by (unfold int_ok; lia).
+      rewrite (chk_I64 (Z.of_nat r + Z.of_nat (length lit))) by (unfold int_ok; lia). xstep.
+      rewrite !(wrap_I32_id (Z.of_nat r + Z.of_nat (length lit))) by (unfold int_ok; lia).
+      change (0 + 1 * 1) with 1.
+      rewrite (store_ok _ gb (VInt (Z.of_nat r) :: y :: rest)) by (try (apply mem_upd_same; exact Hgb); cbn [length]; lia).
+      change (Z.to_nat 1) with 1%nat. rewrite upd_1. rewrite upd_upd by exact Hgb. xstep.
+      change (SFor _ _ _) with grp_for.
+      rewrite (grp_for_ok _ gb n _ _ _ _ _ _ _ Hn2 (Z.to_nat (n - 1)) 1 [VInt (Z.of_nat r); VInt (Z.of_nat r + Z.of_nat (length lit))] rest);
+        try lia; try reflexivity.
+      + xstep. eexists; split; [reflexivity|]. cbn [memm]. rewrite upd_upd by exact Hgb.
+        replace (Z.to_nat n) with (S (Z.to_nat (n - 1))) by lia. reflexivity.
+      + cbn [length] in Hgl. lia.
+      + rewrite mem_upd_same by exact Hgb. reflexivity.
+    - xstep. destruct fuel as [|fuel]; [lia|]. rewrite exec_for. xstep.
+      destruct (Z.ltb_spec 1 n); [lia|]. xstep. eexists; split; [reflexivity|]. cbn [memm].
+      replace (Z.to_nat n) with 0%nat in * by lia. destruct gold; [|discriminate]. cbn [rstr_groups grp_block flat_map].
+      symmetry. apply upd_self. exact Hgold.
+  Qed.
+
+  Definition ret_of (x : RstrDefs.res) : Z := match x with Found _ _ => 0 | _ => -1 end.
+  Definition mem_of (x : RstrDefs.res) : mem :=
+    match x with Found so eo => upd m gb (grp_block (rstr_groups (Z.to_nat n) so eo)) | _ => m end.
+  Let rs := rs_of lit ic lb le wb we.
+
+  Lemma find_for_eq : find_for =
+    SFor (Some (EPtrCmp OLe (ELocal 8) (ELocal 7))) (Some (EIncLocal true 8 None 1)) (SSeq find_c1 (SSeq find_c2 find_c3)).
+  Proof. reflexivity. Qed.
+
+  (* for (r = beg; r <= end; r++) { ... }  return -1; *)
+  Lemma find_for_ok fuel2 bo e' : (o + e' + length lit <= length L)%nat ->
+    forall k r iv fuel, k = (S e' - r)%nat -> (k + Z.to_nat n < fuel)%nat ->
+    exists st',
+      match exec (callf cprog F (S d)) fuel find_for (mkst (lst bo (Z.of_nat (o + e')) r iv) m) with
+      | ONormal st1 => exec (callf cprog F (S d)) fuel2 find_ret st1
+      | x => x
+      end = OReturn (VInt (ret_of (scan rs (skipn o L) (Z.of_nat r) k))) st' /\
+      memm st' = mem_of (scan rs (skipn o L) (Z.of_nat r) k) /\
+      scan rs (skipn o L) (Z.of_nat r) k <> OOB.
+  Proof.
+    intro He. induction k as [|k IH]; intros r iv fuel Hk Hf; (destruct fuel as [|fuel]; [lia|]);
+      rewrite find_for_eq, exec_for; unfold lst at 1; xstep; cbn [ptr_cmp]; rewrite Nat.eqb_refl; xstep.
+    - destruct (Z.leb_spec (Z.of_nat (o + r)) (Z.of_nat (o + e'))); [lia|]. xstep.
+      unfold find_ret. cbn [fn_body cf_rstr_find]. xstep. rewrite (chk_I32 (- (1))) by lia. xstep.
+      eexists; split; [reflexivity|]. split; [reflexivity|discriminate].
+    - destruct (Z.leb_spec (Z.of_nat (o + r)) (Z.of_nat (o + e'))); [|lia]. xstep.
+      destruct (IH (S r) iv fuel ltac:(lia) ltac:(lia)) as [stn N]. rewrite find_for_eq in N. unfold lst in N.
+      replace (Z.of_nat (S r)) with (Z.of_nat r + 1) in N by lia.
+      cbn [scan]. unfold find_at, rs. cbn [rs_of r_wbeg r_wend r_str r_icase]. fold rs.
+      destruct (c1_ok (S fuel) bo (Z.of_nat (o + e')) r iv ltac:(lia)) as [b1 [M1 X1]]. unfold lst in X1. rewrite X1, M1.
+      destruct b1; xstep.
+      { replace (Z.of_nat (o + r) + 1) with (Z.of_nat (o + S r)) by lia. exists stn. exact N. }
+      destruct (c2_ok (S fuel) bo (Z.of_nat (o + e')) r iv ltac:(lia)) as [b2 [M2 X2]]. unfold lst in X2. rewrite X2, M2.
+      destruct b2; xstep.
+      { replace (Z.of_nat (o + r) + 1) with (Z.of_nat (o + S r)) by lia. exists stn. exact N. }
+      rewrite (rd_s r) by lia. rewrite Nat2Z.id.
+      destruct (c3_ok (S fuel) bo (Z.of_nat (o + e')) r iv ltac:(lia) ltac:(lia)) as [st3 [X3 M3]]. unfold lst in X3. rewrite X3.
+      destruct (match_case (skipn r (skipn o L)) lit (nz ic)); xstep.
+      { exists st3. split; [reflexivity|]. split; [exact M3|discriminate]. }
+      replace (Z.of_nat (o + r) + 1) with (Z.of_nat (o + S r)) by lia. exists stn. exact N.
+  Qed.
+
+  Hypothesis Hlitmax : Z.of_nat (length lit) <= 2147483647.
+  Hypothesis HF : (length L + Z.to_nat n + 1 < F)%nat.
+
+  Ltac finish_find bo b e' :=
+    match goal with |- context [scan _ _ ?zb ?k] =>
+      replace k with (S e' - b)%nat by lia end;
+    let st' := fresh "st'" in let X1 := fresh "X1" in let X2 := fresh "X2" in let X3 := fresh "X3" in
+    destruct (find_for_ok F bo e' ltac:(lia) (S e' - b)%nat b VUndef F eq_refl ltac:(lia)) as [st' [X1 [X2 X3]]];
+    unfold lst, find_ret in X1; cbn [fn_body cf_rstr_find] in X1;
+    rewrite ?Nat.add_0_r in X1; change (Z.of_nat 0) with 0 in X1, X2, X3; rewrite X1; split; [rewrite X2; reflexivity|exact X3].
+
+  Theorem tr_rstr_find_sec noteol :
+    callf cprog F (S (S d)) F_rstr_find [VPtr rb 0; VPtr sb (Z.of_nat o); VInt n; VPtr gb 0; VInt flg] m
+    = Ok (VInt (ret_of (rstr_find rs (skipn o L) (nz (Z.land flg 2)) noteol)),
+          mem_of (rstr_find rs (skipn o L) (nz (Z.land flg 2)) noteol)) /\
+    rstr_find rs (skipn o L) (nz (Z.land flg 2)) noteol <> OOB.
+  Proof.
+    enter F_rstr_find cf_rstr_find. xstep. rewrite load_rb0. xstep.
+    change (0 + 1 * 3) with 3. rewrite load_rb3. xstep. rewrite (wrap_I32_id lb Hlb). fold (nz lb).
+    unfold rstr_find, rs. cbn [rs_of r_lbeg r_lend r_str]. fold rs.
+    change (SFor (Some (EPtrCmp OLe (ELocal 8) (ELocal 7))) _ _) with find_for.
+    assert (Hearly : forall st : state, (if nz lb then Ok (VInt (b2z (negb (Z.land flg 2 =? 0))), st) else Ok (VInt 0, st))
+                     = @Ok (val * state) (VInt (b2z (nz lb && nz (Z.land flg 2))), st)) by (intro st; destruct (nz lb); reflexivity).
+    rewrite Hearly. clear Hearly. xstep.
+    destruct (nz lb && nz (Z.land flg 2)) eqn:Eearly; xstep.
+    { rewrite (chk_I32 (- (1))) by lia. split; [reflexivity|discriminate]. }
+    change (0 + 1 * 1) with 1. rewrite load_rb1. xstep.
+    pose proof (bi_strlen m bs lit 0 HR Hnlit ltac:(lia)) as B0. change (Z.of_nat 0) with 0 in B0.
+    rewrite B0. clear B0. xstep. rewrite Nat.sub_0_r.
+    rewrite (wrap_I32_id (Z.of_nat (length lit))) by (unfold int_ok; lia).
+    rewrite (bi_strlen m sb L o HS HnL Ho). xstep.
+    cbn [ptr_cmp]. rewrite Nat.eqb_refl. xstep. rewrite skipn_length.
+    set (E := Z.of_nat (length L - o) - Z.of_nat (length lit) - 1).
+    replace (Z.of_nat o + 1 * Z.of_nat (length L - o) + -1 * Z.of_nat (length lit) + -1 * 1) with (Z.of_nat o + E) by (unfold E; lia).
+    destruct (Z.ltb_spec (Z.of_nat o + E) (Z.of_nat o)) as [HE|HE]; (destruct (Z.ltb_spec E 0) as [HE'|HE']; try lia); xstep.
+    { rewrite (chk_I32 (- (1))) by lia. split; [reflexivity|discriminate]. }
+    set (en := (length L - o - length lit - 1)%nat).
+    assert (Hen : (o + en + length lit + 1 = length L)%nat) by (unfold E, en in *; lia).
+    assert (HEn : E = Z.of_nat en) by (unfold E, en in *; lia). rewrite HEn in *. clear E HEn.
+    replace (Z.of_nat o + Z.of_nat en) with (Z.of_nat (o + en)) by lia.
+    change (0 + 1 * 4) with 4. rewrite load_rb4. xstep. rewrite (wrap_I32_id le Hle). fold (nz le).
+    destruct (nz le); xstep; change (0 + 1 * 3) with 3; rewrite load_rb3; xstep; rewrite (wrap_I32_id lb Hlb); fold (nz lb); destruct (nz lb); xstep.
+    - finish_find (Z.of_nat (o + en)) en 0%nat.
+    - finish_find (Z.of_nat (o + en)) en en.
+    - finish_find (Z.of_nat o) 0%nat 0%nat.
+    - finish_find (Z.of_nat o) 0%nat en.
+  Qed.
+End Find.
+
+(* ------------------------------------------------------------------ rstr_find: the theorem *)
+(* int rstr_find(struct rstr *rs, char *s, int n, int *grps, int flg) with rs->rs == NULL:
+   rs points to a struct rstr block, rs->str to the literal, s into the line at any offset o (the model
+   sees the suffix), grps to an array of 2 * n cells (their old contents are arbitrary, e.g. indeterminate).
+   The call returns 0 / -1 exactly as the model says Found / NotFound; the memory afterwards is the memory
+   before with the grps block holding rstr_groups n so eo when found, and is unchanged when not found;
+   the model does not answer OOB, and the C text performs no load or store outside a block. *)
+Theorem tr_rstr_find m rb bs sb gb lit L o ic lb le wb we n flg gold noteol d fuel :
+  nth_error m rb = Some (rstr_block bs ic lb le wb we) ->
+  str_at m bs lit -> str_at m sb L -> nth_error m gb = Some gold -> length gold = (2 * Z.to_nat n)%nat ->
+  nonul lit -> nonul L -> (o <= length L)%nat ->
+  int_ok ic -> int_ok lb -> int_ok le -> int_ok wb -> int_ok we -> 2 * n <= 2147483647 ->
+  Z.of_nat (length lit) <= 2147483647 -> Z.of_nat (length L) <= 2147483647 ->
+  (length lit < fuel)%nat -> (length L + Z.to_nat n + 1 < fuel)%nat ->
+  let R := rstr_find (rs_of lit ic lb le wb we) (skipn o L) (nz (Z.land flg RE_NOTBOL)) noteol in
+  callf cprog fuel (S (S d)) F_rstr_find [VPtr rb 0; VPtr sb (Z.of_nat o); VInt n; VPtr gb 0; VInt flg] m
+  = Ok (VInt (ret_of R), mem_of m gb n R) /\ R <> OOB.
+Proof.
+  intros Hrb HR HS Hg Hgl Hnlit HnL Ho Hic Hlb Hle Hwb Hwe Hn2 Hlm HLm Hf1 Hf2 R.
+  apply tr_rstr_find_sec with (bs := bs) (gold := gold); try assumption; lia.
 Qed.
